@@ -39,6 +39,8 @@ func main() {
 			return runC12(rec, i, seed, true)
 		case "C12/selfarg":
 			return runC12Mode(rec, i, seed, false, true)
+		case "C12/chainorder":
+			return runC12Full(rec, i, seed, false, false, true)
 		}
 		rec.Inconclusive("unknown prop/mode " + key)
 		return true
